@@ -47,7 +47,7 @@ var (
 func documentedTypes() (map[string]bool, error) {
 	documentedOnce.Do(func() {
 		fset := token.NewFileSet()
-		f, err := parser.ParseFile(fset, "/repo/errors/codes.go", nil, 0)
+		f, err := parser.ParseFile(fset, core.RepoDir()+"/errors/codes.go", nil, 0)
 		if err != nil {
 			documentedErr = err
 			return
